@@ -93,8 +93,8 @@ def _run_schedules(binp, scheds, d, tag="s", timeout=1800, env=None):
         text = p.stdout + p.stderr
         if last_begin in traces and traces[last_begin].get("hang"):
             start = last_begin + 1
-            if sum(1 for t in traces.values() if t.get("hang")) >= 4:
-                # the library spins on schedule after schedule (90 s of real time each): the rest of this shard is not executed
+            if sum(1 for t in traces.values() if t.get("hang")) >= 3:
+                # the library spins on schedule after schedule (60 s of real time each): the rest of this shard is not executed
                 for k in range(start, len(scheds)):
                     sh = dict(scheds[k], id=k, cfg=norm_cfg(scheds[k]["cfg"]))
                     traces[k] = {"id": k, "cfg": sh["cfg"], "outs": [], "wins": [], "crash": False, "hang": True, "not_run": True, "sched": sh,
